@@ -153,3 +153,6 @@ Definition check18 (pc : bool) (c : case18) : bool :=
 
 Definition check18d : case18 -> bool := check18 false.
 Definition check18f : case18 -> bool := check18 true.
+
+(* one evaluation pass for both models: (false, c) = the code as it is, (true, c) = repaired *)
+Definition check18x (bc : bool * case18) : bool := check18 (fst bc) (snd bc).
